@@ -18,6 +18,27 @@ CLAIMED = {
             "class alphabet with representatives; Python re semantics of the two string regexes as characterised in the spec; TLC/SANY",
             "DESIGN.md §4 C18"),
 }
+CLAIMED["C10"] = (
+    "TLC model checking of A1.tla over the whole per-axis domain (every column 0..18307, every row up to the bound) with "
+    "every TLC state replayed into the library's conversion functions + TLC judging (Trace_A1) of sampled call events",
+    "A1.tla is the reference definition (bijective base-26, decimal rows, '$' markers, ranges); TLC checks round trip, shape, strict "
+    "monotonicity (the counting argument for no gaps/no repeats), range collapse on the full per-axis domain; every position is "
+    "replayed into xl_col_to_name / xl_col_to_offset / xl_rowcol_to_cell / xl_cell_to_rowcol and the second decoder in "
+    "parse_numbers_range; sampled corner pairs, cells and negative arguments are recorded as events and judged by TLC.",
+    "TLC/SANY; Python int/str decimal conversion only as far as it agrees with A1!Dec on each checked row",
+    "DESIGN.md §4 C10")
+CLAIMED["C03"] = (
+    "TLC model checking of Workbook.tla (+ GridImpl.tla refinement) ; every bounded TLC behaviour replayed into real Document objects "
+    "with the abstract state compared after every call; recorded random histories validated by TLC against Trace_Workbook",
+    "Workbook.tla specifies the Document/Sheet/Table API as a state machine over plain grids (one action per public call); TLC checks "
+    "the design properties (save is a stutter on open documents, frame conditions between documents and tables, reopen = saved, "
+    "refused calls change nothing) and that the code-shaped renumbering of GridImpl.tla refines the plain grid. All maximal bounded "
+    "histories from TLC's state dump and -simulate behaviours (2 documents, 2 sheets, tables to 5x5, tile-boundary profiles) are "
+    "replayed into the library and compared after every op; long random histories from a spec-independent driver (typed all-distinct "
+    "values, 25x25 tables, save/reopen) are validated event by event by TLC.",
+    "TLC/SANY; the projection (rows(), num_rows/num_cols, Cell.row/col, names) and the concretisation of value tokens; ops outside "
+    "the documented domain are not generated",
+    "DESIGN.md §4 C03")
 NOT_YET = "check not built yet in this round (planned: see DESIGN.md section for this property)"
 NA = {}
 
